@@ -557,6 +557,13 @@ class Engine:
                         n = len(v0[5])          # `[x; N]` with a const parameter N instantiated by the inlined caller
                 if n is not None and a[1][0] != "S":
                     return ("ref", ("S", a[1], C(0, "usize"), C(n, "usize")))
+                m = re.search(r"\[.*; (\w+)\]$", (rv["from"] or "").strip())
+                if m and a[1][0] != "S":
+                    gen = getattr(fr["fn"], "generics", None) or []
+                    if m.group(1) in gen:
+                        sv = (fr.get("subst") or {}).get(m.group(1))
+                        hi = C(int(sv), "usize") if isinstance(sv, str) and sv.isdigit() else ("tyconst", "%s/#%d" % (m.group(1), gen.index(m.group(1))), "usize")
+                        return ("ref", ("S", a[1], C(0, "usize"), hi))
                 return a
             if ck == "PointerCoercion(Unsize)" and a[0] == "pref":
                 return a
@@ -1900,8 +1907,9 @@ def slice_parts(eng, st, t, self_ty=None):
             if m.group(1) in gen:
                 return loc, C(0, "usize"), ("tyconst", "%s/#%d" % (m.group(1), gen.index(m.group(1))), "usize")
             return loc, C(0, "usize"), ("len", t)
-        # a reference to a container that derefs to a slice (Box<[T]>, Vec<T>): its elements, opaque length
-        return ("P", t), C(0, "usize"), ("len", t)
+        # a reference to an array of unknown length or to a container that derefs to a slice (Box<[T]>, Vec<T>): the place itself is
+        # the base, its length is opaque
+        return loc, C(0, "usize"), ("len", t)
     if _frp(t) is not None:
         return ("P", t), C(0, "usize"), _frp(t)[1]
     if t[0] in ("param", "call", "okval", "someval", "getf", "init", "havoc", "cast", "pay"):
